@@ -99,6 +99,9 @@ def run_shard(rec, tier, seed, shard, nshards):
                             lookup[(c, m)] = float(rng.uniform(0, 1.2))
             n_chains = int(rng.integers(1, 5))
             sizes = [int(rng.integers(10, 26)) if rng.random() < 0.5 else int(rng.integers(1, 10)) for _ in range(n_chains)]
+            if ci == 1:
+                sizes[0] = int(rng.choice([100, 256, 257, 300]))  # three-digit group names, beyond byte-sized counters
+                rec.count("long_chains")
             adv = bool(rng.random() < 0.7)
             chains = []
             for c in range(n_chains):
